@@ -44,6 +44,7 @@ def run(idx: ProgramIndex, rep: Report, tier: str):
     list_routing(idx, rep, "IndependentModelList", "models", "C08-3", 3)
     param_expansion(idx, rep)
     objective_reductions(idx, rep)
+    prior_alignment(idx, rep)
 
 
 def _families(idx: ProgramIndex) -> List[ClassInfo]:
@@ -331,3 +332,57 @@ def objective_reductions(idx: ProgramIndex, rep: Report):
                             "reduces named axes" if has_dim else
                             "`%s` reduces over every axis, including the batch axes: each element of a batched objective receives the total over all batch elements instead of its own term" % " ".join(src(c).split())[:70], {})
     rep.floor("C08-5", "reductions in objective code", n, 8)
+
+
+# ---- C08-6 ---------------------------------------------------------------------------------------------------------
+def prior_alignment(idx: ProgramIndex, rep: Report):
+    """A hyper-prior term has shape  <parameter batch shape> x <parameter event dims>; the objective has the (broadcast) batch shape of
+    data and parameters.  Batch shapes broadcast from the right, so the term must be reduced over the parameter's own event dims and
+    then added with right-aligned broadcasting.  Splitting the term's dims by the objective's *rank* (`t.view(*t.shape[:res.ndim], -1)`)
+    pairs the leading dims of the term with the leading dims of the objective: when the data batch has a higher rank than the
+    parameter batch, event dims are taken for batch dims (or the parameter batch is paired with the wrong batch axis)."""
+    rep.rule("C08-6", "hyper-prior terms are reduced over the parameter's own event dims and right-aligned with the objective's batch shape (never split by the objective's rank)")
+    base = idx.find_class("MarginalLogLikelihood")
+    n = 0
+    from ..symbolic import inline, walk_paths
+    for cls in [base] + list(idx.subclasses(base)):
+        for name, fi in sorted(cls.methods.items()):
+            if not any(isinstance(c.func, ast.Attribute) and c.func.attr == "named_priors" for c in calls_in(fi.node)):
+                continue
+            seen = set()
+            for path, seq in walk_paths(fi):
+                for st, env in seq:
+                    if not isinstance(st, ast.stmt):
+                        continue
+                    for c in (x for x in ast.walk(st) if isinstance(x, ast.Call) and isinstance(x.func, ast.Attribute) and x.func.attr == "log_prob"):
+                        key = (c.lineno, c.col_offset)
+                        if key in seen:
+                            continue
+                        seen.add(key)
+                        n += 1
+                        # how is the term consumed?  look at the statements of this function that mention the bound name / the call
+                        tgt = None
+                        if isinstance(st, ast.Assign) and len(st.targets) == 1 and isinstance(st.targets[0], ast.Name) and any(x is c for x in ast.walk(st.value)):
+                            tgt = st.targets[0].id
+                        probs = []
+                        for st2 in ast.walk(fi.node):
+                            if not isinstance(st2, ast.Call) or not isinstance(st2.func, ast.Attribute) or st2.func.attr not in ("view", "reshape"):
+                                continue
+                            recv = st2.func.value
+                            if not ((tgt and isinstance(recv, ast.Name) and recv.id == tgt) or any(x is c for x in ast.walk(recv))):
+                                continue
+                            for a in st2.args:
+                                if isinstance(a, ast.Starred) and isinstance(a.value, ast.Subscript) and isinstance(a.value.slice, ast.Slice) and a.value.slice.lower is None and a.value.slice.upper is not None:
+                                    up = inline(a.value.slice.upper, env) if isinstance(a.value.slice.upper, ast.Name) and a.value.slice.upper.id in env else a.value.slice.upper
+                                    ups = src(up)
+                                    if isinstance(a.value.slice.upper, ast.Name):
+                                        # resolve a local bound anywhere in the function
+                                        for b in ast.walk(fi.node):
+                                            if isinstance(b, ast.Assign) and len(b.targets) == 1 and isinstance(b.targets[0], ast.Name) and b.targets[0].id == a.value.slice.upper.id:
+                                                ups = src(b.value)
+                                    if any(k in ups for k in (".ndim", ".dim()", "len(")) and not any(k in ups for k in ("batch_shape",)):
+                                        probs.append("the prior term is split with `%s` where the bound is `%s` (the objective's rank): its leading dims are paired with the objective's leading dims, so with a data batch of higher rank than the parameter batch event dims are read as batch dims" % (" ".join(src(st2).split())[:60], ups[:30]))
+                        inst = "%s:%s.%s[prior term]" % (cls.module.name, cls.qualname, name)
+                        rep.add("C08-6", inst, "%s:%d" % (fi.module.relpath, c.lineno), not probs,
+                                "the prior term is not re-shaped by the objective's rank" if not probs else "; ".join(sorted(set(probs))), {})
+    rep.floor("C08-6", "hyper-prior terms in objective code", n, 2)
